@@ -6,7 +6,7 @@
    data-rates of the same size table) take the other cells from the model;
    those cells are themselves compared with the implementation by their own
    case, the enumeration being exhaustive. *)
-From Coq Require Import List NArith ZArith Bool.
+From Coq Require Import List NArith ZArith Bool Ascii.
 From Coq Require Export String.
 From LW Require Import Base.Outcome.
 From LW Require Export Band.Types.
@@ -28,6 +28,9 @@ Definition cfg_at (i : N) : band_cfg := nth (N.to_nat i) (band_configs ++ band_a
 Definition non_repeater_partner (c : band_cfg) : option band_cfg :=
   find (fun p => String.eqb (c_name p) (common_name (c_name c)) && Bool.eqb (c_dwell p) (c_dwell c) && negb (c_rep p))
        band_configs.
+
+(* strings with non-printable / non-ASCII bytes are printed by the harness as byte lists *)
+Definition bs (l : list N) : string := string_of_list_ascii (map Ascii.ascii_of_N l).
 
 Inductive case :=
 (* GetDataRate(dr) = o (direction flags are not visible through the API and
